@@ -86,3 +86,33 @@ def _(rng):
                     coords={"row": np.arange(h), "col": np.arange(c0, c0 + w), "disp": disp})
     cv.attrs["offset_row_col"] = o
     return {"img_left": img, "img_right": img.copy(deep=True), "cv": cv}
+
+
+@contract("pandora.criteria.mask_invalid_variable_disparity_range", props=["C04"])
+def _(cv):
+    # bit 1 is raised exactly for the pixels none of whose costs is computable; nothing else changes
+    types(cv={"vars": {"cost_volume": "f32[:,:,:]", "validity_mask": "u16[:,:]"}})
+    requires("shapes", cv["validity_mask"].data.shape[0] == cv["cost_volume"].data.shape[0],
+             cv["validity_mask"].data.shape[1] == cv["cost_volume"].data.shape[1])
+    assigns(cv)
+    raises_never()
+    ensures("bit1", all(cv["validity_mask"].data[r, c] == (
+                            (old(cv["validity_mask"].data)[r, c] | 2)
+                            if all(isnan(cv["cost_volume"].data[r, c, k]) for k in range(cv["cost_volume"].data.shape[2]))
+                            else old(cv["validity_mask"].data)[r, c])
+                        for r in range(cv["cost_volume"].data.shape[0]) for c in range(cv["cost_volume"].data.shape[1])))
+    ensures("costs_untouched", all(eq(cv["cost_volume"].data[r, c, k], old(cv["cost_volume"].data)[r, c, k])
+                                   for r in range(cv["cost_volume"].data.shape[0]) for c in range(cv["cost_volume"].data.shape[1])
+                                   for k in range(cv["cost_volume"].data.shape[2])))
+
+
+@sampler("pandora.criteria.mask_invalid_variable_disparity_range")
+def _(rng):
+    import xarray as xr
+    h, w, n = int(rng.integers(1, 4)), int(rng.integers(1, 5)), int(rng.integers(1, 4))
+    cost = rng.integers(0, 5, size=(h, w, n)).astype(np.float32)
+    cost[rng.random((h, w, n)) < 0.5] = np.nan
+    cost[rng.random((h, w)) < 0.3] = np.nan
+    vm = np.array([0, 0, 2, 4, 6, 1, 64, 128], dtype=np.uint16)[rng.integers(0, 8, size=(h, w))]
+    return {"cv": xr.Dataset({"cost_volume": (["row", "col", "disp"], cost), "validity_mask": (["row", "col"], vm)},
+                             coords={"row": np.arange(h), "col": np.arange(w), "disp": np.arange(n)})}
